@@ -410,7 +410,7 @@ def _walk_work(args: t.Tuple[int, int, int]) -> t.Tuple[int, t.List[t.Any]]:
     for _w in range(n):
         if C.too_many_hangs():
             break
-        s = new_session(role)
+        s = copy.deepcopy(_G["first"])
         k = k0
         in_closed = 0
         for _ in range(walk_len):
@@ -437,17 +437,66 @@ def _walk_work(args: t.Tuple[int, int, int]) -> t.Tuple[int, t.List[t.Any]]:
     return steps, found[:200]
 
 
-def replay_graph(rep: C.Report, role: str, edges: t.List[t.Dict[str, t.Any]], seed: int, walks: int, walk_len: int) -> None:
+def shift_edge(e: t.Dict[str, t.Any], base: int, role: str) -> t.Dict[str, t.Any]:
+    """The same transition for a session that is `base` operations old: every message id >= 1 is `base` higher (0 stays the
+    id of unsolicited / unbind messages).  An aged client has necessarily been opened, so BEFORE_OPEN reads OPENED."""
+    def sh(i: t.Any) -> t.Any:
+        return i + base if isinstance(i, int) and not isinstance(i, bool) and i >= 1 else i
+
+    def st(x: t.Dict[str, t.Any]) -> t.Dict[str, t.Any]:
+        return {**x, "st": "OPENED" if (role == "client" and x["st"] == "BEFORE_OPEN") else x["st"], "out": [sh(i) for i in x["out"]],
+                "srch": [sh(i) for i in x["srch"]], "ctr": x["ctr"] + base}
+
+    c = dict(e["call"])
+    if "id" in c:
+        c["id"] = sh(c["id"])
+    if "ms" in c:
+        c["ms"] = [{**m, "id": sh(m["id"])} for m in c["ms"]]
+    if "emit" in c:
+        c["emit"] = [{**m, "id": sh(m["id"])} for m in c["emit"]]
+    if c.get("op") == "send" and "ret" in c:
+        c["ret"] = sh(c["ret"])
+    return {"src": st(e["src"]), "call": c, "dst": st(e["dst"])}
+
+
+def aged_session(role: str, base: int) -> t.Any:
+    """A client that has completed `base` extended operations (its next message id is base + 1); servers have no counter."""
+    import sansldap
+    import sansldap._messages as M
+
+    s = new_session(role)
+    if role == "client" and base:
+        ok = M.LDAPResult(M.LDAPResultCode(0), "", "", None)
+        opts = M.PackingOptions()
+        for j in range(base):
+            i = s.extended_request("1.3.6.1.4.1.4203.1.11.3", None)
+            if i != j + 1:
+                raise C.MachineryError(f"ageing a client: request {j + 1} got id {i}")  # reported by the plain replay as well
+            s.data_to_send()
+            s.receive(M.ExtendedResponse(i, [], ok, None, None).pack(opts))
+    return s
+
+
+def replay_graph(rep: C.Report, role: str, edges: t.List[t.Dict[str, t.Any]], seed: int, walks: int, walk_len: int, base: int = 0) -> None:
     rnd = random.Random(seed)
     bysrc: t.Dict[str, t.List[t.Any]] = collections.OrderedDict()
     for e in edges:
         bysrc.setdefault(skey(e["src"]), []).append(e)
-    init = {"st": "BEFORE_OPEN", "out": [], "srch": [], "ctr": 1}
+    init = {"st": "OPENED" if (base and role == "client") else "BEFORE_OPEN", "out": [], "srch": [], "ctr": 1 + base}
     k0 = skey(init)
     if k0 not in bysrc:
         raise C.MachineryError("initial state not among the emitted edges")
     # phase 1: one real representative per abstract state (breadth first over matching edges)
-    real: t.Dict[str, t.Any] = {k0: new_session(role)}
+    try:
+        first = aged_session(role, base)
+    except C.MachineryError:
+        raise
+    except Exception as ex:  # noqa: BLE001  the library fails while a client is being aged: a verdict, not a crash
+        rep.violation(f"long-lived/{role}/{type(ex).__name__}", f"{role}: operation number <= {base} on one session failed: {type(ex).__name__}: {ex}", {"base": base},
+                      prop="C09" if role == "client" else "C08")
+        return
+    _G["first"] = first
+    real: t.Dict[str, t.Any] = {k0: copy.deepcopy(first)}
     queue = collections.deque([k0])
     while queue:
         k = queue.popleft()
@@ -497,7 +546,7 @@ def replay_graph(rep: C.Report, role: str, edges: t.List[t.Dict[str, t.Any]], se
     for e in edges:
         rep.evaluations += 1
     rep.distinct.update(f"{role}:{skey(e['src'])}:{skey(e['call'])}" for e in edges)
-    rep.add_part(f"spec->code replay ({role})", abstract_states=len(bysrc), reached_on_real_code=len(real), unreached=len(unreached),
+    rep.add_part(f"spec->code replay ({role}" + (f", message ids shifted by {base}: a session that is {base} operations old" if base else "") + ")", abstract_states=len(bysrc), reached_on_real_code=len(real), unreached=len(unreached),
                  edges=len(edges), edges_executed=done, random_walks=walks, random_walk_steps=steps)
     if unreached:
         # a state the real code cannot be driven into: every path to it hit a mismatch (already reported above)
@@ -527,7 +576,7 @@ def write_cfg(path: str, role: str, max_id: int, max_chunk: int, emit: bool) -> 
                 f.write(f"PROPERTY {p}\n")
 
 
-def run_lifecycle(rep: C.Report, wd: str, tier: str, seed: int) -> None:
+def run_lifecycle(rep: C.Report, wd: str, tier: str, seed: int, aged: bool = True) -> None:
     cfgs = lifecycle_configs(tier)
     jobs = []
     for role, mi, mc in cfgs:
@@ -546,6 +595,12 @@ def run_lifecycle(rep: C.Report, wd: str, tier: str, seed: int) -> None:
             raise C.MachineryError(f"emitted {len(edges)} edges for {em_res.generated} generated states")
         walks = (1500 if tier == "quick" else 20000) if mc == 1 else (500 if tier == "quick" else 6000)
         replay_graph(rep, role, edges, seed + j, walks=walks, walk_len=40)
+        if mc == 1 and aged:
+            # the same graph on sessions that are not new: message ids across the 127/128 and 255/256 boundaries of their
+            # encodings (thorough: 65535/65536), and for a server ids up to maxInt = 2^31 - 1
+            bases = ((126, 254) if tier == "quick" else (126, 254, 65534)) if role == "client" else (2**31 - 1 - (mi + 1), 126)
+            for b_ in bases:
+                replay_graph(rep, role, [shift_edge(e, b_, role) for e in edges], seed + 50 + j, walks=max(50, walks // 5), walk_len=40, base=b_)
     rep.rule = ("one case per transition (source state, call with arguments, outcome) of the Session.tla state graph, emitted by TLC and executed on a real session "
                 "object; distinct by (role, source state, call label); plus seeded random walks through the same graph")
     rep.assumptions = ["D6: calls whose arguments cannot be encoded are outside the quantifier", "D11: data_to_send and register_* keep working on a CLOSED session",
